@@ -42,7 +42,8 @@ def edit(draw, r):
     if not isinstance(r, list) or not r:
         return r
     if r[0] == "lit" and len(r) == 2 and not isinstance(r[1], dict):
-        return ["lit", draw(st.sampled_from([0.5, 2, 3, -1, 7]))]
+        # (incl. floats whose digit groups differ only by leading zeros: 1.05 / 1.5, 2.005 / 2.05 / 2.5, 0.01 / 0.1)
+        return ["lit", draw(st.sampled_from([0.5, 2, 3, -1, 7, 1.05, 1.5, 2.005, 2.05, 2.5, 0.01, 0.1]))]
     if r[0] == "fld" and len(r) == 2:
         return r
     idx = [k for k, x in enumerate(r) if isinstance(x, list) and x]
@@ -82,13 +83,19 @@ def cases(draw, tier):
     pool = []
     n = draw(st.integers(3, 5))
     while len(pool) < n:
-        k = draw(st.sampled_from(["new", "new", "copy", "edit", "swapcoef", "swappart", "shareddiff"])) if pool else "new"
+        k = draw(st.sampled_from(["new", "new", "copy", "edit", "swapcoef", "swappart", "shareddiff", "litpair"])) if pool else "new"
         if k == "new":
             pool.append(G.expr(sh, free, draw(st.integers(1, 3))))
         elif k == "copy":
             pool.append(draw(st.sampled_from(pool)))
         elif k == "edit":
             pool.append(edit(draw, draw(st.sampled_from(pool))))
+        elif k == "litpair":
+            base = draw(st.sampled_from(pool))
+            a, b_ = draw(st.sampled_from([(1.05, 1.5), (2.005, 2.05), (2.05, 2.5), (0.01, 0.1), (10.5, 1.05), (3, 3.0)]))
+            op_ = draw(st.sampled_from(["mul", "add"])) if sh == () else "mul"
+            pool.append([op_, ["lit", a], base] if op_ == "mul" else ["add", ["lit", a], base])
+            pool.append([op_, ["lit", b_], base] if op_ == "mul" else ["add", ["lit", b_], base])
         elif k == "swapcoef":
             a, b = draw(st.sampled_from([("f0", "f1"), ("w0", "w1"), ("f1", "f0")]))
             pool.append(swap_fields(draw(st.sampled_from(pool)), a, b))
